@@ -15,6 +15,10 @@ A case (JSON-able)::
 Outcome alphabet (one letter per connection attempt; what the 'network' and the router do):
     R   connection refused                          Rx  refused with a non-OSError exception
     Hd  TCP accepted, dropped before any reply      H   transport handshake answered with a refusal
+    He / Hde  (asyncio) like H / Hd, but the teardown - the refusal, the protocol's close(), connection_lost() - is
+        DELIVERED BEFORE the future of create_connection() completes (a real loop resumes the awaiting task several
+        iterations after connection_made(); everything above fits in between).  On Twisted the endpoint Deferred
+        fires synchronously after makeConnection(), so the ordering does not exist: He/Hde are played as H/Hd.
     A   transport up, HELLO answered with ABORT
     L   WELCOME, then TCP lost (reset)              Lc  WELCOME, then TCP closed cleanly without GOODBYE
     K   WELCOME, then the ROUTER closes the session (GOODBYE wamp.close.system_shutdown)
@@ -38,6 +42,7 @@ TERMINAL_OK = ("G", "M")
 APPLICABLE = {           # phases of an attempt that exist for an outcome
     "R": ("delay", "inflight"), "Rx": ("delay", "inflight"),
     "Hd": ("delay", "inflight", "connected"), "H": ("delay", "inflight", "connected"),
+    "Hde": ("delay", "inflight", "connected"), "He": ("delay", "inflight", "connected"),
     "A": ("delay", "inflight", "connected", "handshaken"),
 }
 for _o in JOINING:
@@ -267,13 +272,14 @@ class Run:
             p.refuse(RuntimeError("TLS negotiation failed") if outcome == "Rx" else None)
             rec["end"] = "refused"
         else:
-            rc = p.establish()
+            early = outcome in ("He", "Hde") and self.world.fw == "aio"
+            rc = p.establish(defer_result=early)
             rec["conn"] = len(net.conns) - 1
             self._stop_if(p.n, "connected")
-            if outcome == "Hd":
+            if outcome in ("Hd", "Hde"):
                 rc.lose(False)
                 rec["end"] = "dropped-before-handshake"
-            elif outcome == "H":
+            elif outcome in ("H", "He"):
                 rc.ep.take_output()
                 if kind == "websocket":
                     rc.ep.feed(b"HTTP/1.1 403 Forbidden\r\nContent-Length: 0\r\n\r\n")
@@ -300,6 +306,11 @@ class Run:
                 else:
                     self._stop_if(p.n, "handshaken")
                     self._after_hello(p, rc, outcome, rec)
+        if outcome in ("He", "Hde") and self.world.fw == "aio":
+            # only now does the awaiting task of create_connection() resume: transport already closing / lost
+            rec["early"] = True
+            rec["end"] += "-before-connect-result"
+            p.complete_connect()
         rec["t_end"] = net.now()
         return rec
 
